@@ -26,6 +26,12 @@ var lastBufShape string
 
 func encodeFresh(m any) (string, []byte) {
 	bufShapeCounter++
+	return encodeFreshShape(m, bufShapeCounter)
+}
+
+// the shape is chosen by idx%5 (idx also varies the sizes within a shape)
+func encodeFreshShape(m any, idx int) (string, []byte) {
+	bufShapeCounter := idx
 	var consumed []byte
 	spare := 0
 	switch bufShapeCounter % 5 {
@@ -62,11 +68,44 @@ func decodeInto(recv any, in []byte) (status string, rest []byte) {
 	default:
 		buf = mkBuffer([]byte{0xaa, 0xbb, 0xcc}, in, bufShapeCounter%13)
 	}
+	before := buf.Bytes()
 	status = callDecode(recv, buf)
 	if status == "ok" {
 		rest = append([]byte{}, buf.Bytes()...)
 	}
+	// the caller now reuses its buffer for something else: whatever Decode returned must not change with it
+	before = before[:cap(before)]
+	for i := range before {
+		before[i] = byte(0x3c + 11*i)
+	}
 	return
+}
+
+// encodeShaped encodes m into an empty buffer of a named shape (used where the shape matters for the property at hand)
+func encodeShaped(m any, shape string, prior any) (string, []byte) {
+	lastBufShape = shape
+	switch shape {
+	case "pre-grown-4MiB":
+		buf := &bytes.Buffer{}
+		buf.Grow(4 << 20)
+		st := callEncode(m, buf)
+		if st == "ok" {
+			return st, append([]byte{}, buf.Bytes()...)
+		}
+		return st, nil
+	case "reset-after-a-large-legal-message":
+		buf := &bytes.Buffer{}
+		if prior != nil {
+			callEncode(prior, buf)
+		}
+		buf.Reset()
+		st := callEncode(m, buf)
+		if st == "ok" {
+			return st, append([]byte{}, buf.Bytes()...)
+		}
+		return st, nil
+	}
+	return encodeFresh(m)
 }
 
 func hx(b []byte) string { return hex.EncodeToString(b) }
@@ -218,8 +257,9 @@ func (r *rng) dirtyReceiver(t *genType) (recv any, how string) {
 	return recv, "history:" + how
 }
 
-func (r *rng) history(lastFrames [][]byte) (pre, consumed []byte, desc string) {
-	switch r.intn(4) {
+func (r *rng) history(lastFrames [][]byte) (pre, consumed []byte, desc string, spare int) {
+	spare = r.intn(3) * 32
+	switch r.intn(5) {
 	case 0:
 		pre = r.bytes(1 + r.intn(40))
 		desc = "random-prior"
@@ -233,6 +273,13 @@ func (r *rng) history(lastFrames [][]byte) (pre, consumed []byte, desc string) {
 	case 2:
 		pre = r.bytes(100 + r.intn(200))
 		desc = "long-prior"
+	case 3:
+		// a receive buffer most of which has been read already: little unread, room for a header but not for a
+		// body, so that bytes.Buffer slides its contents down (or reallocates) in the middle of the Encode
+		consumed = r.bytes(150 + r.intn(400))
+		pre = r.bytes(1 + r.intn(24))
+		spare = 12 + r.intn(100)
+		return pre, consumed, "mostly-consumed-tight", spare
 	}
 	if r.chance(1, 3) {
 		consumed = r.bytes(1 + r.intn(30))
